@@ -5,7 +5,7 @@ from lark.visitors import Interpreter
 
 from pharmpy.model import Model
 
-from .feature import ModelFeature
+from .feature import ModelFeature, feature
 from .symbols import Symbol
 
 
@@ -22,7 +22,7 @@ class AllometryInterpreter(Interpreter):
     def interpret(self, tree):
         children = self.visit_children(tree)
         assert 1 <= len(children) <= 2
-        return Allometry(covariate=children[0], reference=children[1])
+        return feature(Allometry, children)
 
     def value(self, tree):
         return tree.children[0].value
